@@ -457,6 +457,13 @@ func C17(rep *ev.Reporter, tier string) {
 	rep.Coverage["transitions"] = n + pairChecked
 	rep.Coverage["traces_validated_against_impl"] = n
 	rep.Coverage["distinct_nontrivial"] = n
+	{
+		var texts []string
+		for _, d := range docs {
+			texts = append(texts, d, d+"\nrule", d[:len(d)*2/3], d+"\n"+d)
+		}
+		rep.Coverage["delivery_builds"] = c17Delivery(texts, tier, report)
+	}
 	rep.Coverage["documents"] = len(docs)
 	rep.Coverage["recogniser_accepts"] = accepted
 	rep.Coverage["recogniser_rejects"] = rejected
@@ -467,7 +474,7 @@ func C17(rep *ev.Reporter, tier string) {
 		rep.Exhaustive = false
 		rep.Coverage["caps_hit"] = "time budget"
 	}
-	rep.Coverage["rule"] = fmt.Sprintf("%d valid documents covering every grammar alternative; for each EVERY single mutation at EVERY token position (delete, duplicate, swap with next, replace by / insert each of %d alphabet tokens: keywords in several cases, all punctuation and operators, identifiers incl. reserved-word look-alikes, every literal class incl. out-of-range and malformed ones, illegal characters, comment openers) and character-level delete / insert / replace with %d characters (quick: at every 3rd byte). Oracle: an independent recogniser (maximal-munch lexer transcribed from the token rules + Earley recogniser over the literally transcribed parser rules + literal validity + distinct names): BuildRuleFromResource == nil iff it accepts; on acceptance the knowledge base holds exactly the declared rules (name, unquoted description, salience); a lexical/syntactic rejection is a GruleErrorReporter with >= 1 entry; never a panic; whatever rules a rejected text leaves in the knowledge base can be instantiated and executed without a failure inside the engine (no damaged rule is added). For rejected mutants (quick: every 5th) the text is also built after a good 2-rule resource: the good rules must still instantiate, execute, store and load with unchanged behaviour; and after a good resource whose rules carry the SAME NAMES as the document's (so the text - valid or mutant - is rejected at least for the name clash): the loaded rules still behave as before. Every 20th mutant (thorough: every one) goes through the four multi-resource entry points (BuildRuleFromResources, MustBuildRuleFromResources, BuildRulesFromBundle, MustBuildRulesFromBundle) alone, after a good resource, before one and between two: the call fails (panics) iff the recogniser rejects the text.", len(docs), len(c17Alphabet), len(c17Chars))
+	rep.Coverage["rule"] = fmt.Sprintf("%d valid documents covering every grammar alternative; for each EVERY single mutation at EVERY token position (delete, duplicate, swap with next, replace by / insert each of %d alphabet tokens: keywords in several cases, all punctuation and operators, identifiers incl. reserved-word look-alikes, every literal class incl. out-of-range and malformed ones, illegal characters, comment openers) and character-level delete / insert / replace with %d characters (quick: at every 3rd byte). Oracle: an independent recogniser (maximal-munch lexer transcribed from the token rules + Earley recogniser over the literally transcribed parser rules + literal validity + distinct names): BuildRuleFromResource == nil iff it accepts; on acceptance the knowledge base holds exactly the declared rules (name, unquoted description, salience); a lexical/syntactic rejection is a GruleErrorReporter with >= 1 entry; never a panic; whatever rules a rejected text leaves in the knowledge base can be instantiated and executed without a failure inside the engine (no damaged rule is added). For rejected mutants (quick: every 5th) the text is also built after a good 2-rule resource: the good rules must still instantiate, execute, store and load with unchanged behaviour; and after a good resource whose rules carry the SAME NAMES as the document's (so the text - valid or mutant - is rejected at least for the name clash): the loaded rules still behave as before. Every 20th mutant (thorough: every one) goes through the four multi-resource entry points (BuildRuleFromResources, MustBuildRuleFromResources, BuildRulesFromBundle, MustBuildRulesFromBundle) alone, after a good resource, before one and between two: the call fails (panics) iff the recogniser rejects the text. Delivery: every document, and three rejected variants of it, reaches the builder through every offline resource kind (bytes, file, file bundle, reader) and every reader behaviour the io.Reader contract allows (chunk sizes, (0, nil) reads before chunks and at every single position, EOF with or after the last data): same verdict and same rules; a reader failing mid-way is never accepted.", len(docs), len(c17Alphabet), len(c17Chars))
 	rep.Assumptions = append(rep.Assumptions, "the recogniser was validated against the valid corpus and every disagreement met during development was classified by hand (DESIGN.md §5 C17)")
 }
 
